@@ -176,6 +176,12 @@ def make(max_packet, buffer_size, epnum):
             z3.Implies(z3.And(closing, c.nx(commit_ev)), c.nx(q.n_p) == z3.If(okay, zx(rx.pidx, CW) + 1, bvc(0, CW))),
             clause="the output stream carries the payload of every newly accepted packet: what is committed is the whole packet "
                    "(toggle as expected) or nothing (repeated toggle)")
+        ens("fifo_port_follows_the_model",
+            z3.And((ts.sig("fifo.write_en") == 1) == store, (ts.sig("fifo.write_commit") == 1) == z3.And(commit_ev, z3.Not(discard_ev)),
+                   (ts.sig("fifo.write_discard") == 1) == discard_ev),
+            clause="at the FIFO's write port (queue behaviour: C18): a byte is written iff it belongs to a packet with the expected "
+                   "toggle addressed to this endpoint and the buffer is not full; commit iff CRC-valid, for me and nothing lost; "
+                   "discard iff corrupted or something was lost")
         ens("commit_iff_good_packet_for_me_without_loss",
             c.nx(q.n_c) == z3.If(z3.And(strobe, tgt, rx.st_c == 1, pkt_lost == 0), q.n_c + q.n_p, q.n_c),
             clause="bytes become deliverable exactly when a CRC-valid packet addressed to this endpoint has drained without loss")
